@@ -73,6 +73,31 @@ def L1(kind, state, shape, ring=1, tiers=('quick', 'thorough'), timeout=900):
             'shape': sh['text'] + SHAPE_TEXT % ring}
 
 
+API_FUNCS = [
+    ('cat_is_busy', 'cat_is_busy(&h_obj)', ['C16', 'C17', 'C18', 'C03']),
+    ('cat_is_hold', 'cat_is_hold(&h_obj)', ['C14', 'C16', 'C17', 'C18', 'C03']),
+    ('cat_hold_exit', 'cat_hold_exit(&h_obj,(cat_status)nondet_int())', ['C14', 'C16', 'C17', 'C03']),
+    ('cat_is_unsolicited_buffer_full', 'cat_is_unsolicited_buffer_full(&h_obj)', ['C13', 'C16', 'C17', 'C03']),
+    ('cat_trigger_unsolicited_event', 'cat_trigger_unsolicited_event(&h_obj,h_pick_cmd(),(cat_cmd_type)nondet_int())', ['C13', 'C16', 'C17', 'C03']),
+    ('cat_trigger_unsolicited_read', 'cat_trigger_unsolicited_read(&h_obj,h_pick_cmd())', ['C13', 'C16', 'C17', 'C03']),
+    ('cat_trigger_unsolicited_test', 'cat_trigger_unsolicited_test(&h_obj,h_pick_cmd())', ['C13', 'C16', 'C17', 'C03']),
+    ('cat_is_unsolicited_event_buffered', 'cat_is_unsolicited_event_buffered(&h_obj,h_pick_cmd(),(cat_cmd_type)nondet_int())', ['C13', 'C03']),
+    ('cat_get_processed_command', 'cat_get_processed_command(&h_obj,(cat_fsm_type)nondet_int())', ['C13', 'C03']),
+]
+
+
+def API(fn, call, props, shape='sh16', ring=1, lockrule=False, tiers=('quick', 'thorough')):
+    sh = SHAPES[shape]
+    defs = ['API_CALL=' + call] + sh['defines'] + ['CAT_UNSOLICITED_CMD_BUFFER_SIZE=%d' % ring] + (['H_LOCKRULE'] if lockrule else [])
+    replace = []
+    if fn in ('cat_trigger_unsolicited_read', 'cat_trigger_unsolicited_test') and not lockrule:
+        replace = []
+    return {'id': 'API.%s.%s.N%d%s' % (fn, shape, ring, '.lockrule' if lockrule else ''), 'props': [p for p in props if (p != 'C17' or lockrule) and (p == 'C17' or p == 'C03' or not lockrule)],
+            'harness': 'l1_api.c', 'enforce': fn, 'replace': replace, 'loop_contracts': False, 'defines': defs, 'expect': ['postcondition'],
+            'label': 'shape-bounded', 'timeout': 600, 'replay': None, 'cbmc_flags': ['--unwind', str(sh['unwind']), '--unwinding-assertions', '--object-bits', '10'],
+            'tiers': list(tiers), 'shape': sh['text'] + SHAPE_TEXT % ring + ('; lock() and unlock() rewrite the lock-protected fields under their invariant (lock rule)' if lockrule else '')}
+
+
 def jobs(tier):
     J = []
     J.append(L0('parse_uint_decimal', ['C03', 'C04'], loop=True, replay={'kind': 'program', 'program': 'f2.c'}))
@@ -86,4 +111,9 @@ def jobs(tier):
         J.append(L1('at', st, 'sh16'))
     for st in UN_STATES:
         J.append(L1('un', st, 'sh16'))
+    for fn, call, props in API_FUNCS:
+        for ring in (1, 2, 3):
+            J.append(API(fn, call, props, ring=ring))
+            if 'C17' in props:
+                J.append(API(fn, call, props, ring=ring, lockrule=True))
     return [j for j in J if tier in j['tiers']]
